@@ -315,7 +315,6 @@ func branchKeys(r *CellResult) []string {
 	return out
 }
 
-
 func eqValRec(vx, vy absint.Val, cx, cy map[string]*absint.Bool) (bool, string) {
 	if absint.ValKey(vx) == absint.ValKey(vy) {
 		return true, ""
